@@ -47,6 +47,42 @@ Theorem C02_vandermonde_general :
 Proof. exact vandermonde_general. Qed.
 Print Assumptions C02_vandermonde_general.
 
+(* ---- the SOURCE of the assembly of the SFS statistics (SFSDistribution.moment / cov / get_cov and the bin indices; pinned on every run by
+   translate/sfs2coq.py into gen/SfsGen.v): the spectrum has n + 1 entries with zeros at 0 and n and the bin moments in between; the
+   covariance entry (a, b) is (A a b + A b a) / 2 - mean_a mean_b with A the ordered raw second moments of the bins; it is symmetric ---- *)
+From PG Require Import gen.NpSfs gen.SfsGen proofs.GenSfsEquiv.
+Theorem C02_distributions_py_unfolded_spectrum_layout :
+  forall (T : Type) (OP : Ops T) (Rw : Type) (combined : Rw -> nat -> Rw) (pmoment : nat -> list Rw -> bool -> bool -> T) (self_reward : Rw)
+         n k rewards c p,
+    (1 <= n)%nat ->
+    nth 0 (SFSDistribution_moment OP Rw combined pmoment self_reward n (UnfoldedSFSDistribution_get_indices n) k (Some rewards) c p) (o0 OP) = o0 OP /\
+    nth n (SFSDistribution_moment OP Rw combined pmoment self_reward n (UnfoldedSFSDistribution_get_indices n) k (Some rewards) c p) (o0 OP) = o0 OP /\
+    (forall i, (1 <= i)%nat -> (i < n)%nat ->
+       nth i (SFSDistribution_moment OP Rw combined pmoment self_reward n (UnfoldedSFSDistribution_get_indices n) k (Some rewards) c p) (o0 OP)
+       = SFSDistribution__moment Rw combined pmoment k i rewards c p).
+Proof.
+  intros T OP Rw combined pmoment self_reward n k rewards c p Hn.
+  destruct (gen_sfs_unfolded_borders OP Rw combined pmoment self_reward n k rewards c p Hn) as [H0 H1].
+  split; [exact H0 | split; [exact H1 | intros i Hi1 Hi2; apply gen_sfs_unfolded_entry; assumption]].
+Qed.
+Theorem C02_distributions_py_covariance_entry :
+  forall (T : Type) (OP : Ops T) (Rw : Type) (combined : Rw -> nat -> Rw) (pmoment : nat -> list Rw -> bool -> bool -> T) (self_reward : Rw)
+         n indices mean a b,
+    NoDup indices -> Forall (fun i => (i < n + 1)%nat) indices -> length mean = (n + 1)%nat -> (a < n + 1)%nat -> (b < n + 1)%nat ->
+    mget OP (SFSDistribution_cov OP Rw combined pmoment self_reward n indices mean) a b
+    = osub OP (odiv OP (oadd OP (A2 OP Rw combined pmoment self_reward indices a b) (A2 OP Rw combined pmoment self_reward indices b a)) (oofN OP 2))
+              (omul OP (nth a mean (o0 OP)) (nth b mean (o0 OP))).
+Proof. exact @gen_sfs_cov_entry. Qed.
+Theorem C02_distributions_py_covariance_symmetric :
+  forall (Rw : Type) (combined : Rw -> nat -> Rw) (pmoment : nat -> list Rw -> bool -> bool -> R) (self_reward : Rw) n indices mean a b,
+    NoDup indices -> Forall (fun i => (i < n + 1)%nat) indices -> length mean = (n + 1)%nat -> (a < n + 1)%nat -> (b < n + 1)%nat ->
+    mget OpsR (SFSDistribution_cov OpsR Rw combined pmoment self_reward n indices mean) a b
+    = mget OpsR (SFSDistribution_cov OpsR Rw combined pmoment self_reward n indices mean) b a.
+Proof. exact gen_sfs_cov_symmetric. Qed.
+Print Assumptions C02_distributions_py_unfolded_spectrum_layout.
+Print Assumptions C02_distributions_py_covariance_entry.
+Print Assumptions C02_distributions_py_covariance_symmetric.
+
 From mathcomp Require Import all_ssreflect all_algebra.
 From PG Require Import proofs.ExpLaws.
 Set Implicit Arguments. Unset Strict Implicit. Unset Printing Implicit Defensive.
